@@ -326,6 +326,10 @@ namespace occa {
     occaType newOccaType(const occa::json &json,
                          const bool needsFree) {
       if (json.isNull()) {
+        // occaNull carries no pointer: nobody could free the json later
+        if (needsFree) {
+          delete &json;
+        }
         return occaNull;
       }
       occaType oType;
